@@ -45,17 +45,30 @@ def _payload(story):
     return _child(_child(story, 'mosExternalMetadata'), 'mosPayload')
 
 
+def _seconds(tag):
+    """Value of a timing tag; None when its text is not a number (an empty tag, "0:45", "45s"):
+    such a duration is unknown, which is not the same as absent-counting-as-zero."""
+    try:
+        return float(tag.text)
+    except (TypeError, ValueError):
+        return None
+
+
 def ref_duration(story):
     p = _payload(story)
     if p is None:
         return None
     d = _child(p, 'StoryDuration')
     if d is not None:
-        return float(d.text)
+        return _seconds(d)
     tt, mt = _child(p, 'TextTime'), _child(p, 'MediaTime')
     if tt is None and mt is None:
         return None
-    return (float(tt.text) if tt is not None else 0) + (float(mt.text) if mt is not None else 0)
+    a = _seconds(tt) if tt is not None else 0
+    b = _seconds(mt) if mt is not None else 0
+    if a is None or b is None:
+        return None
+    return a + b
 
 
 def ref_time(text):
